@@ -158,6 +158,8 @@ def build_cases(seed, n):
     for i in range(n):
         g = Gen(seed * 100003 + i + 900)
         g.features["fail"] = 0.0
+        g.features["clobber"] = 0.0
+        g.features["late_subplan"] = 0.0  # F8: outcome of such plans depends on the schedule
         projects.append((f"w{seed}-{i}", g.project()))
     for j, (tid, proj) in enumerate(projects):
         rng = random.Random(seed * 1009 + j)
